@@ -470,6 +470,7 @@ class Machine:
         self.regs = {acc: {} for acc in fields}
         self.written = {acc: set() for acc in fields}
         self.recent = {acc: set() for acc in fields}  # fields written since the previous launch of that accelerator
+        self.recent_loops = {}  # accelerator -> field -> loops around the setup that wrote it last
         self.on_state = None  # callback(value, op, where)
 
     def reg(self, acc, f):
@@ -509,6 +510,7 @@ def machine_handlers(M: Machine):
             M.regs.setdefault(acc, {})[n] = I.get(v)
             M.written.setdefault(acc, set()).add(n)
             M.recent.setdefault(acc, set()).add(n)
+            M.recent_loops.setdefault(acc, {})[n] = _loops_around(op)
         I.set(op.out_state, Opaque("state", acc=acc))
         if M.on_state:
             M.on_state(op.out_state, op, "setup")
@@ -526,8 +528,11 @@ def machine_handlers(M: Machine):
             if isinstance(p, _scf.ForOp):
                 in_loop = True
             p = p.parent_op()
+        here = _loops_around(op)
+        # fields whose latest write sits inside a loop this launch is not in: the value reaches the launch over a loop exit
+        over_exit = tuple(sorted(f for f in M.recent.get(acc, ()) if not M.recent_loops.get(acc, {}).get(f, frozenset()) <= here))
         I.emit("launch", acc, M.snapshot(acc), vals, tuple(sorted(M.written.get(acc, ()))),
-               "launch_in_loop" if in_loop else "launch_outside_loop", tuple(sorted(M.recent.get(acc, ()))))
+               "launch_in_loop" if in_loop else "launch_outside_loop", tuple(sorted(M.recent.get(acc, ()))), over_exit)
         M.recent[acc] = set()
         I.set(op.token, Opaque("token", acc=acc))
 
@@ -571,6 +576,18 @@ def machine_handlers(M: Machine):
         "llvm.call": h_call,
         "accfg.accelerator": h_accel, "@for_iter": h_for_iter, "@for_exit": h_for_exit, "@if_exit": h_if_exit,
     }
+
+
+def _loops_around(op):
+    from xdsl.dialects import scf as _scf
+
+    out = set()
+    p = op.parent_op()
+    while p is not None:
+        if isinstance(p, _scf.ForOp):
+            out.add(id(p))
+        p = p.parent_op()
+    return frozenset(out)
 
 
 def _is_state(v):
@@ -626,5 +643,7 @@ def compare_launch_traces(t1, t2, fields, oblige):
                 # does the input program write this field between the previous launch and this one, or does the
                 # launch rely on a value left in the register earlier (e.g. because dedup removed the write)?
                 rel = "written_by_own_setup" if f in e1[6] else "relies_on_earlier_state"
+                if len(e1) > 7 and f in e1[7]:
+                    rel = "relies_on_state_at_loop_exit"  # written, but inside a loop the launch is behind
                 oblige("launch:register", irsym.term_eq(v1, v2), dict(launch=i, acc=acc, field=f, where=e1[5], reliance=rel))
         oblige("launch:values", irsym.term_eq(e1[3], e2[3]), dict(launch=i, acc=acc))
